@@ -188,6 +188,18 @@ def word(i: int) -> str:
 
 # probes used only where a check asks for them by name (build(..., force={file number: probe name}))
 EXTRA_PROBES = {
+    # several findings of one rule on ONE line (TypeScript findings carry column 0: they differ in nothing but the message)
+    "tstwins": ("ts", '''export function perDay@(n@: number): number {
+  const total@ = n@ * 3600 * 24;
+  console.log("first@"); console.log("second@");
+  return total@ + 3600 + 3600;
+}
+'''),
+    "pytwins": ("py", '''def per_day@(n@):
+    total@ = n@ * 3600 * 24
+    print("first@"); print("first@")
+    return total@ + 3600 + 3600
+'''),
     # a list accumulator with the SAME local name the `perf` probe uses for its string accumulator
     "collector": ("py", '''def gather@(items@):
     result@ = []
